@@ -60,7 +60,8 @@ func encodeStream(c combo, phase int, wview bool, lens []int) (e *encoded, err e
 	ctx := context.Background()
 	g := 0
 	var rb []byte
-	for bi, m := range lens {
+	cEncodes := 0
+	for _, m := range lens {
 		var f frame.Frame
 		cols := make([]reflect.Value, len(c))
 		pad := 0
@@ -86,12 +87,17 @@ func encodeStream(c combo, phase int, wview bool, lens []int) (e *encoded, err e
 		if wview {
 			f = f.Slice(1, 1+m)
 		}
+		// all C columns of a stream share one session state (it is keyed by type):
+		// tell the codec how many C column encodes precede each one in this stream
 		var keys []interface{}
 		for ci, k := range c {
-			if k == kCustom && cols[ci].Len() > 0 {
-				key := cols[ci].Index(0).Addr().Interface()
-				cExpect.Store(key, bi)
-				keys = append(keys, key)
+			if k == kCustom {
+				if cols[ci].Len() > 0 {
+					key := cols[ci].Index(0).Addr().Interface()
+					cExpect.Store(key, cEncodes)
+					keys = append(keys, key)
+				}
+				cEncodes++
 			}
 		}
 		err := enc.Write(ctx, f)
@@ -155,7 +161,7 @@ func readBack(e *encoded, d *dsts, dstSeq []int, dview bool, rkind int, st *fidS
 		det := map[string]interface{}{
 			"columns": e.c.String(), "phase": e.phase, "writer_frames_are_views": e.wview,
 			"batch_lengths": e.lens, "dst_lengths_cyclic": dstSeq, "dst_is_view": dview,
-			"reader": []string{"bytes.Reader", "one-byte plain io.Reader"}[rkind],
+			"reader":     []string{"bytes.Reader", "one-byte plain io.Reader"}[rkind],
 			"read_index": readIdx, "rows_delivered_before": next, "rows_written": e.truth,
 			"n": lastN, "err": fmt.Sprint(lastErr), "stream_hex": fmt.Sprintf("%x", e.data),
 		}
